@@ -246,7 +246,17 @@ def _build_decoy():
     g4.angular_position = U.cls('AngularPosition')(1, 'rad')
     g4.angular_speed = U.cls('AngularSpeed')(2, 'rad/s')
     pt = Powertrain(m)
-    return pt, Solver(pt)
+    # ... with a motor control, rules, sensors and a stop condition of its own
+    from gearpy.motor_control import PWMControl
+    from gearpy.motor_control import rules as Rl
+    from gearpy.sensors import AbsoluteRotaryEncoder, Tachometer, Timer
+    from gearpy.utils import StopCondition
+    pc = PWMControl(powertrain=pt)
+    pc.add_rule(Rl.ConstantPWM(timer=Timer(start_time=U.cls('Time')(0, 'sec'), duration=U.cls('TimeInterval')(1e9, 'sec')),
+                               powertrain=pt, target_pwm_value=0.123))
+    sc = StopCondition(sensor=Tachometer(g4), threshold=U.cls('AngularSpeed')(1e9, 'rad/s'),
+                       operator=StopCondition.greater_than)
+    return pt, Solver(pt), pc, sc, AbsoluteRotaryEncoder(g2)
 
 
 class Runaway(Exception):
